@@ -52,6 +52,14 @@ theorem theta_update_reads_back_partial (r : List RNode) (ps : List Param)
         conv => rhs; rw [← List.take_append_drop (multiple cs) (p :: ps')]
         rw [List.map_append, htake, List.map_replicate]
 
+/-- the same with every side-condition decidable (the driver evaluates them on each generated case;
+    the harness reports a case that satisfies them and does not read back on the real code) -/
+theorem theta_update_reads_back_decidable (r : List RNode) (ps : List Param)
+    (hshape : recShapeOK r = true) (hok : paramsOK ps = true) (hrep : noRepeatSplit r ps = true) :
+    parseRec (updRec r ps) = .ok (ps.map Param.toParsed) :=
+  theta_update_reads_back_partial r ps (recShapeOK_sound r hshape)
+    (fun p hp => List.all_eq_true.mp hok p hp) hrep
+
 /-- the update never changes the number of parameters of a record -/
 theorem theta_update_len (r : List RNode) (ps : List Param) (hshape : RecShape r)
     (hok : ∀ p ∈ ps, ParamOK p = true) (hrep : noRepeatSplit r ps = true) :
